@@ -43,3 +43,36 @@ Theorem C08_send_stamps_current_number : forall m fl0 hdr data size, data_flags_
             w_hdr w = hdr /\ w_data w = data.
 Proof. exact send_stamps_current. Qed.
 Print Assumptions C08_send_stamps_current_number.
+
+(* ---- the send scheduler of C07 (Link/TxSched.v: concurrent callers, the lock, the ACK wait) keeps the SAME numbering:
+   its number follows the history by the step function of the numbering model above, and every data frame it writes
+   carries the number current at that moment *)
+From ZB Require Link.TxSched Link.TxSchedSeq.
+
+Theorem C08_scheduler_step_is_the_numbering_model : forall q n,
+  TxSchedSeq.seq_step q (TxSched.TAckE n) = fst (tstep q (TAck n)) /\
+  TxSchedSeq.seq_step q TxSched.TCloseE = fst (tstep q TClose) /\
+  (forall tag, TxSchedSeq.seq_step q (TxSched.TSendE tag) = q) /\ (forall dt, TxSchedSeq.seq_step q (TxSched.TTickE dt) = q) /\
+  (forall tag, TxSchedSeq.seq_step q (TxSched.TCancelE tag) = q) /\ TxSchedSeq.seq_step q TxSched.TDataE = q.
+Proof. intros q n. repeat split. Qed.
+Print Assumptions C08_scheduler_step_is_the_numbering_model.
+
+Theorem C08_scheduler_numbering_follows_history : forall evs,
+  TxSched.t_seq (TxSched.trun_events evs) = fold_left TxSchedSeq.seq_step evs 0.
+Proof. exact TxSchedSeq.seq_follows_history. Qed.
+Print Assumptions C08_scheduler_numbering_follows_history.
+
+Theorem C08_scheduler_writes_carry_current_number : forall s e,
+  exists new, TxSched.t_log (TxSched.tstep s e) = new ++ TxSched.t_log s /\
+              Forall (TxSchedSeq.stamped (TxSched.t_seq (TxSched.tstep s e))) new.
+Proof. exact TxSchedSeq.writes_carry_current_number. Qed.
+Print Assumptions C08_scheduler_writes_carry_current_number.
+
+(* non-vacuity: three senders, the numbers on the wire are 0, 1, 2, then (after ACK 3 is missed and a close) 0 again *)
+Example C08_scheduler_instance :
+  let evs := [TxSched.TSendE 1; TxSched.TAckE 0; TxSched.TSendE 2; TxSched.TAckE 1; TxSched.TSendE 3; TxSched.TAckE 0;
+              TxSched.TAckE 2; TxSched.TCloseE] in
+  TxSched.t_seq (TxSched.trun_events (firstn 7 evs)) = 3 /\ TxSched.t_seq (TxSched.trun_events evs) = 0 /\
+  filter (fun o => match o with TxSched.TW _ _ => true | _ => false end) (rev (TxSched.t_log (TxSched.trun_events evs))) =
+    [TxSched.TW 1 0; TxSched.TW 2 1; TxSched.TW 3 2].
+Proof. vm_compute. repeat split. Qed.
